@@ -152,7 +152,17 @@ Definition c11_store_ok (q : request) (o : xobs) : bool :=
   | _ => true
   end.
 
-Definition c11_ok (q : request) (o : xobs) : bool := c11_hits_ok (x_events o) && c11_store_ok q o.
+(* without a key (none configured and none in the context, or an empty one in the context) an outermost cache policy is
+   neither read nor written: no hit, no store *)
+Definition c11_nokey_ok (q : request) (o : xobs) : bool :=
+  match q_stack q with
+  | PCache _ cfg :: _ =>
+      let key := match q_key q with CKStr k => k | _ => ca_key cfg end in
+      if key =? 0 then negb (existsb (fun e => (kind_is KCacheHit e || kind_is KCached e) && Nat.eqb (e_pos e) 0) (x_events o)) else true
+  | _ => true
+  end.
+
+Definition c11_ok (q : request) (o : xobs) : bool := c11_hits_ok (x_events o) && c11_store_ok q o && c11_nokey_ok q o.
 
 (* ---- C10: the fallback is applied only right after this fallback classified the inner result a failure *)
 Fixpoint c10_fb_ok (prev : option event) (l : list event) : bool :=
@@ -195,6 +205,19 @@ Definition c07_ok (q : request) (o : xobs) : bool :=
           | _ => negb is_timeout || existsb (fun e => kind_is KFnEnd e && match snd (e_out e) with Some ETimeout => true | _ => false end) (x_events o)
                  || existsb (kind_is KFallbackExecuted) (x_events o) || existsb (kind_is KTimeoutExceeded) (x_events o)
           end)
+  | _ => true
+  end.
+
+(* an outermost Timeout whose execution took longer than its limit (a limit that is zero or negative has elapsed from the
+   start) did time out: its listener fired and the caller got ErrExceeded.  Sound whatever the schedule (evaluated on
+   schedule-dependent histories too): the timer is armed for start + limit and cannot be stopped before the function returns *)
+Definition c07_late_ok (q : request) (o : xobs) : bool :=
+  match q_stack q with
+  | PTimeout limit :: _ =>
+      if x_start o + Z.max limit 0 <? x_end o then
+        match snd (x_out o) with Some ETimeout => true | _ => false end
+        && existsb (fun e => kind_is KTimeoutExceeded e && Nat.eqb (e_pos e) 0) (x_events o)
+      else true
   | _ => true
   end.
 
@@ -277,3 +300,5 @@ Fixpoint all_reqs (f : request -> xobs -> bool) (qs : list request) (os : list x
    legitimately differ from run to run, and the harness' own reads (e.g. Executions()+1 at function exit) race there *)
 Definition failures_of (f : request -> xobs -> bool) (cs : list hcase) : list Z :=
   map h_id (filter (fun h => negb (skipped h) && negb (all_reqs f (h_reqs h) (h_obs h))) cs).
+Definition failures_always (f : request -> xobs -> bool) (cs : list hcase) : list Z :=
+  map h_id (filter (fun h => negb (all_reqs f (h_reqs h) (h_obs h))) cs).
